@@ -24,6 +24,12 @@ func Run(rec *kernel.Rec, c *node.Chain, sel int64) {
 	switch {
 	case r.InitPanic != "":
 		rec.Violate("C15", "init_genesis_panic", r.Edit, "genesis with edit %q passes the modules' validation but InitChain panics: %s", r.Edit, r.InitPanic)
+	case r.RoundTrip != "":
+		field := r.RoundTrip
+		if i := strings.Index(field, ":"); i > 0 {
+			field = field[:i]
+		}
+		rec.Violate("C13", "edited_genesis_roundtrip", r.Edit+":"+field, "a genesis with edit %q was validated and initialised, but the fresh chain's own export differs: %s", r.Edit, r.RoundTrip)
 	case r.ValidatePanic != "":
 		rec.Probe("genesis_edit.validate_panics." + r.Edit)
 	case r.ValidateErr != "":
